@@ -493,6 +493,15 @@ def judge_agg(case, text):
         return {"verdict": "not-judged", "why": str(e)}
     if text.startswith("!"):
         return {"verdict": "not-judged", "why": "render"}
+    # a part that already fails by itself (argument or one criterion) is reported under its own class; the aggregate-level
+    # comparison below judges only what FILTER adds (the folding of several criteria)
+    for part in [case["t"]] + [c for call in case["filters"] for c in call]:
+        try:
+            pj = judge({"t": part}, tf.render_impl(part, tf.STR_CTX))
+        except Exception:
+            pj = {"verdict": "not-judged"}
+        if pj.get("verdict") == "differs":
+            return pj
     w = None
     for c in crits:
         w = explicit(c) if w is None else "((%s) AND (%s))" % (w, explicit(c))
